@@ -453,6 +453,7 @@ pub fn api_harness(spec: &RunSpec) -> RunOutput {
             bstep: bstep.clone(),
             finds: Rc::new(RefCell::new(Vec::new())),
             lifetime_obs: Rc::new(RefCell::new(Vec::new())),
+            no_cancel: Rc::new(Cell::new(plan["no_cancel"].as_bool().unwrap_or(false))),
         };
         peers.borrow_mut().push(ctx.clone());
 
@@ -872,11 +873,29 @@ pub fn api_harness(spec: &RunSpec) -> RunOutput {
     if st.spurious_polls > 0 {
         *st.faults.entry("spurious_poll").or_insert(0) += st.spurious_polls;
     }
-    st.nontrivial = st.broker_steps > 20;
+    let hit = |st: &RunStats, p: &str| st.probes.get(p).copied().unwrap_or(0) > 0;
+    let fault_applied = w.clients.iter().any(|c| c.ctl.borrow().fired || c.cause_done);
+    st.nontrivial = st.broker_steps > 20
+        && match spec.prop {
+            Prop::C15 => fault_applied,
+            Prop::C19 => hit(&st, "discoverer-checked") || hit(&st, "lifetime-checked") || hit(&st, "object-found"),
+            Prop::C05 => hit(&st, "channel-item-delivered"),
+            _ => hit(&st, "call-value-checked") || hit(&st, "channel-item-delivered") || hit(&st, "event-received"),
+        };
     // Operations performed by the (first) client's transport: the fault space of C15.
     if let Some(c) = w.clients.first() {
         st.zombies = 0;
         let _ = c;
+    }
+    if fault_kind != "none" {
+        if let (Some(n), Some(base)) = (plan["fault"]["fault_free_ops"].as_u64(), plan["base"].as_u64()) {
+            let mut h = Fnv::new();
+            h.u64(base);
+            h.u64(fault_client.unwrap_or(0) as u64);
+            h.str(&fault_kind);
+            h.u64(fault_at);
+            st.fault_point = Some((h.0, base, 6 * (n + 1)));
+        }
     }
     let victim_ops = fault_client.and_then(|v| w.clients.get(v)).map(|c| c.ctl.borrow().ops).unwrap_or(0);
     st.aux_count = victim_ops;
